@@ -22,7 +22,7 @@ open Nuts Nuts.C19 Nuts.C19.Lemmas
     function are exactly the expected ones, and every expected panic site is a `Res.panic` site of a model -/
 theorem panic_sites_accounted :
     Facts.C19.partialOps = Sites.expectedOps ∧
-    (∀ s ∈ Sites.expectedSites, s ∈ (Dpop.sites ++ Resolver.sites ++ Bitstring.sites ++ Iblt.sites ++ Callback.sites).map (·.2)) := by
+    (∀ s ∈ Sites.expectedSites, s ∈ (Dpop.sites ++ Resolver.sites ++ Bitstring.sites ++ Iblt.sites ++ Callback.sites ++ StatusList.sites ++ DidKey.sites).map (·.2)) := by
   constructor <;> decide
 
 /-- the source today is the repaired source: checked assertions in dpop.go and key.go, nil guards on verification
@@ -32,7 +32,8 @@ theorem panic_sites_accounted :
 theorem fact_cfg_is_fixed :
     Sites.dpopCfg = Dpop.Cfg.fixed ∧ Sites.resolverCfg = Resolver.Cfg.fixed ∧
     Sites.ibltCfg = { k := 6, chainBounded := true, maxChain := 64 } ∧ Facts.C19.bucketIndicesCapsK = true ∧
-    Sites.callbackCfg = { assertChecked := false, envelopeGuard := true } := by decide
+    Sites.callbackCfg = { assertChecked := false, envelopeGuard := true } ∧
+    Sites.statusListCfg = StatusList.Cfg.fixed ∧ Sites.didKeyCfg = DidKey.Cfg.fixed := by decide
 
 /-- constants the models use -/
 theorem fact_constants :
@@ -329,7 +330,7 @@ example : Iblt.probePhase 1024 6 455 1023 1 [455] = .ok [455, 456, 457, 458, 459
 /-- stand-alone, `withCallbackURI` is partial: any error that is not an `oauth.OAuth2Error` value panics (candidate #21) -/
 theorem callback_standalone_partial (m : String) :
     Callback.withCallbackURI Sites.callbackCfg (.raw m) = .panic "withCallbackURI:err.(oauth.OAuth2Error)" := by
-  rw [fact_cfg_is_fixed.2.2.2.2]; rfl
+  rw [fact_cfg_is_fixed.2.2.2.2.1]; rfl
 
 /-- … but in handleAuthorizeResponseSubmission it is never reached with such an error, for ANY list of presentations:
     `validatePresentationAudience` returns the raw ParseLDProof error only for a JSON-LD presentation whose proof does not
@@ -341,7 +342,7 @@ theorem callback_total_in_handler (ps : List (Callback.Pres × Bool)) (storeOk :
     (∀ c : Callback.Cfg, c.envelopeGuard = true → ∀ s, Callback.handleSubmission c ps storeOk ≠ .panic s) ∧
     (∀ s, Callback.handleSubmission Sites.callbackCfg ps storeOk ≠ .panic s) :=
   ⟨fun c hg => handleSubmission_no_panic c hg ps storeOk,
-   handleSubmission_no_panic _ (by rw [fact_cfg_is_fixed.2.2.2.2]) ps storeOk⟩
+   handleSubmission_no_panic _ (by rw [fact_cfg_is_fixed.2.2.2.2.1]) ps storeOk⟩
 
 /-- WITHOUT that guard the empty envelope (`vp_token=[]`, which pe.ParseEnvelope accepts) panics: the loop over zero
     presentations collects no error and `nonces[0]` indexes an empty slice -/
@@ -358,6 +359,39 @@ example : Callback.handleSubmission { assertChecked := false }
 /-- and the audience check alone WOULD hand withCallbackURI a raw error -/
 example : Callback.audienceLoop { assertChecked := false }
     [({ format := .jsonld, ldProofOk := false, nonce := "n", audOk := false }, true)] = .panic "withCallbackURI:err.(oauth.OAuth2Error)" := by decide
+
+/-! ### vcr/revocation/statuslist2021_verifier.go: validate, update, Verify's loop; vdr/didkey/resolver.go: Resolve -/
+
+/-- For EVERY downloaded credential (whatever go-did's accessors report: any number of subjects incl. none, any member
+    missing, nil or zero expirationDate), any expand/signature result and any list of credentialStatus entries with any index:
+    validate, update and the per-entry loop of Verify never panic; update returns a record only after download, validate,
+    expand, signature and subject id all succeeded (so a rejected status list credential leaves the SQL store unchanged). -/
+theorem statuslist_total (url : String) (d : Option StatusList.Cred) (ex : String → Option (List Nat)) (sig : Bool) (es : List StatusList.Entry) :
+    (∀ cr s, StatusList.validate Sites.statusListCfg cr ≠ .panic s) ∧
+    (∀ s, StatusList.update Sites.statusListCfg url d ex sig ≠ .panic s) ∧
+    (∀ s, StatusList.verifyEntries es ≠ .panic s) ∧
+    (∀ r, StatusList.update Sites.statusListCfg url d ex sig = .ok r →
+      ∃ cr subj bits, d = some cr ∧ StatusList.validate Sites.statusListCfg cr = .ok subj ∧ ex subj.encodedList = some bits ∧ sig = true ∧ url = subj.id) := by
+  rw [fact_cfg_is_fixed.2.2.2.2.2.1]
+  exact ⟨fun cr => sl_validate_no_panic _ rfl cr, sl_update_no_panic _ rfl rfl url d ex sig, sl_verifyEntries_no_panic es,
+    fun r h => sl_update_ok_checked _ url d ex sig r h⟩
+
+/-- without the two guards the witnesses panic: no credentialSubject at all → `target[0]`; no expirationDate → nil `IsZero()` -/
+def goodCred : StatusList.Cred :=
+  { hasVCContext := true, hasSLContext := true, isVCType := true, isSLCType := true, nTypes := 2, idNil := false, issuanceZero := false,
+    jsonldWithoutProof := false, hasStatus := false, subjects := some [⟨"u", "StatusList2021", "revocation", "L"⟩], expiration := some false }
+theorem statuslist_guards_needed :
+    StatusList.validate ⟨false, true⟩ { goodCred with subjects := some [] } = .panic "validate:target[0]" ∧
+    StatusList.update ⟨true, false⟩ "u" (some { goodCred with expiration := none }) (fun _ => some [0]) true = .panic "update:cred.ExpirationDate.IsZero()(nil)" ∧
+    StatusList.update StatusList.Cfg.fixed "u" (some { goodCred with expiration := none }) (fun _ => some [0]) true = .ok ⟨"u", "revocation", [0], false⟩ ∧
+    StatusList.update StatusList.Cfg.fixed "u" (some goodCred) (fun _ => some [0]) true = .ok ⟨"u", "revocation", [0], true⟩ := by decide
+
+/-- did:key Resolve never panics, for every DID string / decoding result / codec / key length (the library calls are data) -/
+theorem didkey_total (i : DidKey.In) : ∀ s, DidKey.resolve Sites.didKeyCfg i ≠ .panic s := by
+  rw [fact_cfg_is_fixed.2.2.2.2.2.2]; exact didkey_no_panic _ rfl i
+
+example : DidKey.resolve DidKey.Cfg.fixed { method := "key", encodedKey := ['z', '6'], b58Ok := true, keyType := some 0xed, keyLength := 32, rsaSize := none, vmOk := true } = .ok () := by decide
+example : DidKey.resolve ⟨false⟩ { method := "key", encodedKey := [], b58Ok := false, keyType := none, keyLength := 0, rsaSize := none, vmOk := true } = .panic "Resolve:encodedKey[0]" := by decide
 
 /-! ### the models panic only at listed sites (ties the `sites` lists to the model functions, any Cfg) -/
 
